@@ -167,6 +167,8 @@ def run(chk, ctx) -> None:
                got=[stmt_text(st, 60) for st in stmts if not isinstance(st, ast.Try)][:2] or None)
     chk.floor('C08.query_shape', 17)
     _callbacks(chk, ctx)
+    from .cover import records_inert
+    records_inert(chk, ctx, 'C08.refusals_in_verifier')
     _partial_calls(chk, ctx, disc)
 
     # ------------------------------------------------------------- forwarding
